@@ -39,7 +39,7 @@ import (
 func init() {
 	register(parserPart)
 	registerReplay("parser-feed", parserReplay)
-	rules = append(rules, "[parser] every stream of a fixed set (requests: no body / Content-Length / chunked with trailers / pipelines / Upgrade followed by foreign bytes / malformed; responses alike) x {one piece; every single cut x {close at the end, close at the cut}; every pair of cuts (streams up to 140 bytes; longer: every pair of structural positions = both sides of every SP, ':', CR, LF, the middle of every token, message boundaries, the 1024-byte cache threshold) x {close at the end, close at the second cut}; every triple of cuts (streams up to 32 bytes; longer: every triple out of 9 consecutive positions of {inside the first token of a line, between CR and LF, after LF, message boundaries}) x {close at the end, close at the third cut}; pieces of 1, 2, 3, 5, 7 bytes, byte at a time also with a close after every piece (longer streams: after structural positions)} x {blocking, non-blocking hand-over style, for the streams that hand over} x 4 allocator variants; thorough adds close at the first cut for pairs, every triple of streams up to 70 bytes and unwindowed structural triples;")
+	rules = append(rules, "[parser] every stream of a fixed set (requests: no body / Content-Length / chunked with trailers / pipelines / Upgrade followed by foreign bytes / malformed; responses alike) x {one piece; every single cut x {close at the end, close at the cut}; every pair of cuts (streams up to 140 bytes; longer: every pair of structural positions = both sides of every SP, ':', CR, LF, the middle of every token, message boundaries, the 1024-byte cache threshold) x {close at the end, close at the second cut}; every triple of cuts (streams up to 32 bytes; longer: every triple out of 9 consecutive positions of {inside the first token of a line, between CR and LF, after LF, message boundaries}) x {close at the end, close at the third cut}; pieces of 1, 2, 3, 5, 7 bytes, byte at a time also with a close after every piece (longer streams: after structural positions)} x {blocking, non-blocking hand-over style, for the streams that hand over} x allocator variants {exact capacity + moving Append in poison mode; recycled contents and exact + moving Append in guard mode (freed buffers inaccessible); one and two reads also plain exact and recycled contents in poison mode}; thorough adds close at the first cut for pairs, every triple of streams up to 70 bytes and unwindowed structural triples;")
 	assumptions = append(assumptions, "[parser] after Parse returns an error the harness does what the engine does: CloseAndClean and no further feeds; bytes delivered after a close are still passed to Parse (it must refuse them without touching released buffers)",
 		"[parser] the unparsed bytes a parser holds back between two reads are the tail of what it was fed (it never rewrites them), so their expected value is known; only a poison byte in that tail (or in reported data) is an ownership violation, any other difference is counted and left to C06")
 }
@@ -99,6 +99,7 @@ type parserInput struct {
 	Case   respgen.FeedCase `json:"case"`
 	Policy int              `json:"policy"`
 	Move   bool             `json:"move"`
+	Guard  bool             `json:"guard,omitempty"`
 	Text   string           `json:"text"`
 }
 
@@ -169,6 +170,33 @@ func structuralCuts(s []byte, boundaries []int) (full, reduced []int) {
 	return
 }
 
+// parserVariants are the allocator variants a family of segmentations runs under: poison mode
+// (freed buffers overwritten; content oracle and sweep) and guard mode (freed buffers
+// inaccessible; every touch faults where it happens), with the two capacity behaviours that
+// differ in which buffers get freed - pooled capacity with recycled contents (appends extend in
+// place) and exact capacity with a moving Append (every growing append frees the old buffer).
+// Three and four reads: moving Append in poison mode and both in guard mode. One and two reads
+// additionally under plain exact capacity and recycled contents in poison mode (thorough: plain
+// pooled too; in the quick tier it is left to the recycled-contents variant, which has the same
+// capacities).
+func parserVariants(fam int, thorough bool) []respgen.RunOpt {
+	vs := []respgen.RunOpt{
+		{Policy: track.Exact, Move: true},
+		{Policy: track.Stale, Guard: true},
+		{Policy: track.Exact, Move: true, Guard: true},
+	}
+	if fam == famSingles {
+		vs = append(vs, respgen.RunOpt{Policy: track.Exact}, respgen.RunOpt{Policy: track.Stale})
+	}
+	if fam == famSingles && thorough {
+		vs = append(vs, respgen.RunOpt{Policy: track.Pooled})
+	}
+	if fam != famSingles && thorough {
+		vs = append(vs, respgen.RunOpt{Policy: track.Stale})
+	}
+	return vs
+}
+
 const (
 	famSingles = iota // one piece, every single cut, fixed-size pieces
 	famPairs
@@ -194,8 +222,8 @@ func parserPart(tier string, sh *vkit.Shard, p *vkit.Part) {
 		stream := b.s.bytes()
 		n := len(stream)
 		full, reduced := structuralCuts(stream, b.s.boundaries())
-		for _, v := range allocVariants {
-			for fam := 0; fam < nFamilies; fam++ {
+		for fam := 0; fam < nFamilies; fam++ {
+			for _, v := range parserVariants(fam, thorough) {
 				// work item: one stream under one allocator variant, one family of segmentations
 				if !sh.Mine() {
 					continue
@@ -226,6 +254,11 @@ func parserPart(tier string, sh *vkit.Shard, p *vkit.Part) {
 					p.Count("parser_retained_tail_differs_from_input_without_poison(C06)", r.TailDiffs)
 					p.Count("parser_stale_sentinel_in_reported_or_retained_data(not_judged)", r.StaleSeen)
 					p.Count("parser_open_parser_keeping_a_released_cache_pointer(not_judged)", r.DanglingCache)
+					if r.Guarded {
+						p.Count("parser_runs_with_guard_pages", 1)
+					} else if v.Guard {
+						p.Count("parser_runs_guard_pages_unavailable(poison_mode_instead)", 1)
+					}
 					if r.ContentOff {
 						p.Count("parser_runs_without_content_oracle(poison_byte_in_input)", 1)
 					}
@@ -253,7 +286,7 @@ func parserPart(tier string, sh *vkit.Shard, p *vkit.Part) {
 					p.Outcome(fmt.Sprintf("parser stream#%d msgs=%d errs=%d handover=%v viol=%d", bi, len(r.Seen), len(r.Errs), r.HandOver, len(r.Viol)))
 					what := fmt.Sprintf("%s [allocator %s]", c.String(), v)
 					for _, tv := range r.Viol {
-						p.Report(tv.Sig, what+"\n  "+tv.Desc, "parser-feed", parserInput{Case: c, Policy: int(v.Policy), Move: v.Move, Text: what})
+						p.Report(tv.Sig, what+"\n  "+tv.Desc, "parser-feed", parserInput{Case: c, Policy: int(v.Policy), Move: v.Move, Guard: v.Guard, Text: what})
 					}
 					if len(r.Viol) > 0 {
 						p.Count("parser_runs_with_violation", 1)
@@ -357,7 +390,7 @@ func parserReplay(in json.RawMessage) string {
 		return "bad replay input: " + err.Error()
 	}
 	env := respgen.GetEnv()
-	opt := respgen.RunOpt{Policy: track.Policy(inp.Policy), Move: inp.Move}
+	opt := respgen.RunOpt{Policy: track.Policy(inp.Policy), Move: inp.Move, Guard: inp.Guard}
 	r := env.RunFeeds(inp.Case, opt)
 	fmt.Printf("case: %s [%s]\n", inp.Case.String(), opt)
 	fmt.Printf("delivered: %q\nstub got: %q\nparse errors: %v\nhand-over: %v, cached after first segment: %d, allocator: %d mallocs %d frees %d appends\npanic: %s\n",
